@@ -45,6 +45,10 @@ func (r QuantityReporter) Flush() error {
 	for k, v := range r.accumulator {
 		sortable = append(sortable, SortTuple{k, v})
 	}
+	// equal quantities are listed by name, not in map order
+	sort.Slice(sortable, func(i, j int) bool {
+		return sortable[i].name < sortable[j].name
+	})
 
 	if r.descending {
 		sort.SliceStable(sortable, func(i, j int) bool {
